@@ -1412,6 +1412,120 @@ def sec_nav(m):
     return lines
 
 
+def sec_misc(m):
+    """Facts for the parts of harness/parts_misc.py: the deleted tag and the attribute assignments of Tree._unregister
+    (REMOVED, host C01); the keyword pass-through of Tree.print (PRINT, host C16); mermaid.DEFAULT_DIRECTION and the
+    defaults of the four flowchart signatures (host C17)."""
+    lines = []
+    tree, node, typed, mermaid = m["tree"], m["node"], m["typed"], m["mermaid"]
+    lines.append(f"Definition DELETED_TAG : list Z := {text(const_str(module_assign(tree, '_DELETED_TAG')))}.")
+    tcls = class_def(tree, "Tree")
+    unreg = func_def(tcls, "_unregister")
+    kwd = {a.arg: d for a, d in zip(unreg.args.kwonlyargs, unreg.args.kw_defaults)}
+    if set(kwd) != {"clear"} or not (isinstance(kwd["clear"], ast.Constant) and isinstance(kwd["clear"].value, bool)):
+        raise Unsupported("Tree._unregister: expected exactly the keyword-only parameter clear=<bool>")
+    lines.append(f"Definition UNREGISTER_CLEAR_DEFAULT : bool := {'true' if kwd['clear'].value else 'false'}.")
+
+    def slot_assigns(stmts):
+        out = []
+        for st in stmts:
+            if isinstance(st, ast.Assign) and len(st.targets) == 1 and isinstance(st.targets[0], ast.Attribute) \
+                    and isinstance(st.targets[0].value, ast.Name) and st.targets[0].value.id == "node":
+                v = st.value
+                if isinstance(v, ast.Constant) and v.value is None:
+                    out.append((st.targets[0].attr, "None"))
+                elif isinstance(v, ast.Name) and v.id == "_DELETED_TAG":
+                    out.append((st.targets[0].attr, "TAG"))
+                else:
+                    raise Unsupported(f"Tree._unregister: unexpected value assigned to node.{st.targets[0].attr}")
+        return out
+
+    always = slot_assigns(unreg.body)
+    ifs = [st for st in unreg.body if isinstance(st, ast.If) and isinstance(st.test, ast.Name) and st.test.id == "clear"]
+    if len(ifs) != 1 or ifs[0].orelse:
+        raise Unsupported("Tree._unregister: expected exactly one `if clear:` without else")
+    cond = slot_assigns(ifs[0].body)
+
+    def pairs(ps):
+        return "[" + "; ".join(f"({text(a)}, {text(b)})" for a, b in ps) + "]"
+
+    lines.append(f"Definition UNREGISTER_ALWAYS : list (list Z * list Z) := {pairs(always)}.")
+    lines.append(f"Definition UNREGISTER_IF_CLEAR : list (list Z * list Z) := {pairs(cond)}.")
+    # every call of _unregister in the package: how many, and how many pass clear=
+    calls = with_clear = 0
+    for mod in (tree, node, typed):
+        for n in ast.walk(mod):
+            if isinstance(n, ast.Call):
+                f = n.func
+                nm = f.attr if isinstance(f, ast.Attribute) else f.id if isinstance(f, ast.Name) else None
+                if nm == "_unregister":
+                    calls += 1
+                    if any(k.arg == "clear" or k.arg is None for k in n.keywords) or len(n.args) > 1:
+                        with_clear += 1
+    lines.append(f"Definition UNREGISTER_CALLS : Z := {calls}%Z.")
+    lines.append(f"Definition UNREGISTER_CALLS_PASSING_CLEAR : Z := {with_clear}%Z.")
+
+    # Tree.print: exactly `print(self.format(k=k ...), file=file)`; the keyword-only parameters and their defaults
+    pr = func_def(tcls, "print")
+    fm = func_def(tcls, "format")
+
+    def kwdefaults(fn):
+        out = []
+        for a, d in zip(fn.args.kwonlyargs, fn.args.kw_defaults):
+            if d is None:
+                continue        # a required keyword-only parameter
+            if isinstance(d, ast.Constant) and d.value is None:
+                out.append((a.arg, "None"))
+            elif isinstance(d, ast.Constant) and isinstance(d.value, bool):
+                out.append((a.arg, "True" if d.value else "False"))
+            elif isinstance(d, ast.Constant) and isinstance(d.value, str):
+                out.append((a.arg, repr(d.value)))
+            elif isinstance(d, ast.Name):
+                out.append((a.arg, d.id))
+            else:
+                raise Unsupported(f"{fn.name}: unsupported default of {a.arg}")
+        return out
+
+    body = [st for st in pr.body if not (isinstance(st, ast.Expr) and isinstance(st.value, ast.Constant))]
+    ok = (len(body) == 1 and isinstance(body[0], ast.Expr) and isinstance(body[0].value, ast.Call)
+          and isinstance(body[0].value.func, ast.Name) and body[0].value.func.id == "print")
+    if not ok:
+        raise Unsupported("Tree.print: expected a single print(...) call")
+    call = body[0].value
+    if len(call.args) != 1 or not (isinstance(call.args[0], ast.Call) and isinstance(call.args[0].func, ast.Attribute)
+                                   and call.args[0].func.attr == "format" and isinstance(call.args[0].func.value, ast.Name)
+                                   and call.args[0].func.value.id == "self" and not call.args[0].args):
+        raise Unsupported("Tree.print: expected print(self.format(...), ...)")
+
+    def passed(c):
+        out = []
+        for k in c.keywords:
+            if k.arg is None or not isinstance(k.value, ast.Name):
+                raise Unsupported("Tree.print: expected keyword=name arguments")
+            out.append((k.arg, k.value.id))
+        return out
+
+    lines.append(f"Definition PRINT_KWONLY : list (list Z * list Z) := {pairs(kwdefaults(pr))}.")
+    lines.append(f"Definition FORMAT_KWONLY : list (list Z * list Z) := {pairs(kwdefaults(fm))}.")
+    lines.append(f"Definition PRINT_TO_FORMAT : list (list Z * list Z) := {pairs(passed(call.args[0]))}.")
+    lines.append(f"Definition PRINT_TO_PRINT : list (list Z * list Z) := {pairs(passed(call))}.")
+
+    # mermaid
+    lines.append(f"Definition MERMAID_DEFAULT_DIRECTION : list Z := {text(const_str(module_assign(mermaid, 'DEFAULT_DIRECTION')))}.")
+    sigs = [func_def(mermaid, "_node_to_mermaid_flowchart_iter"), func_def(mermaid, "node_to_mermaid_flowchart"),
+            func_def(class_def(node, "Node"), "to_mermaid_flowchart"), func_def(tcls, "to_mermaid_flowchart")]
+    ds = []
+    for fn in sigs:
+        d = dict(kwdefaults(fn))
+        if "direction" not in d:
+            raise Unsupported(f"{fn.name}: no keyword-only parameter `direction`")
+        ds.append(d)
+    lines.append("Definition MERMAID_DIRECTION_DEFAULTS : list (list Z) := [" + "; ".join(text(ast.literal_eval(d["direction"]) if d["direction"][:1] in "'\"" else d["direction"]) for d in ds) + "].")
+    for nm, d in (("MERMAID_NODE_DEFAULTS", ds[2]), ("MERMAID_TREE_DEFAULTS", ds[3])):
+        lines.append(f"Definition {nm} : list (list Z * list Z) := {pairs(sorted(d.items()))}.")
+    return lines
+
+
 # section name -> (function, source files it reads, properties whose obligations use it)
 SECTIONS = [
     ("CONNECTORS", sec_connectors, ["common", "tree"]),
@@ -1428,6 +1542,7 @@ SECTIONS = [
     ("LOCK", sec_lock, ["tree", "typed", "fs", "dot", "node"]),
     ("NAV", sec_nav, ["node"]),
     ("NAVT", sec_navt, ["typed"]),
+    ("MISC", sec_misc, ["tree", "node", "typed", "mermaid"]),
 ]
 FILES = dict(common="common.py", tree="tree.py", typed="typed_tree.py", fs="fs.py", diff="diff.py", mermaid="mermaid.py",
              dot="dot.py", init="__init__.py", node="node.py")
